@@ -284,6 +284,16 @@ where
                 T::deserialize(v.into_deserializer())
                     .map(|val| Spanned::new(val, Location::UNKNOWN, Location::UNKNOWN))
             }
+            // Text and bytes that are lent keep their lifetime: `Spanned<&str>` behind serde's own
+            // buffering (flattened, untagged and internally tagged types) is filled like `&str`.
+            fn visit_borrowed_str<E: de::Error>(self, v: &'de str) -> Result<Self::Value, E> {
+                T::deserialize(de::value::BorrowedStrDeserializer::new(v))
+                    .map(|val| Spanned::new(val, Location::UNKNOWN, Location::UNKNOWN))
+            }
+            fn visit_borrowed_bytes<E: de::Error>(self, v: &'de [u8]) -> Result<Self::Value, E> {
+                T::deserialize(de::value::BorrowedBytesDeserializer::new(v))
+                    .map(|val| Spanned::new(val, Location::UNKNOWN, Location::UNKNOWN))
+            }
             fn visit_bytes<E: de::Error>(self, v: &[u8]) -> Result<Self::Value, E> {
                 T::deserialize(de::value::BytesDeserializer::new(v))
                     .map(|val| Spanned::new(val, Location::UNKNOWN, Location::UNKNOWN))
